@@ -89,7 +89,7 @@ fn wf_state<I: Inp>(i: &mut I, p: f64, max_count: i64) -> ([f64; 5], [i64; 5], Q
 }
 
 /// one observation from any well-formed state: positions, count and extreme markers (full doubles)
-fn step_bookkeeping<I: Inp>(i: &mut I, which: u8) {
+fn step_bookkeeping<I: Inp>(i: &mut I, which: u8) -> bool {
     let p = valid_p(i);
     let (h, n, mut q) = wf_state(i, p, 1i64 << 40);
     let x = obs(i);
@@ -115,13 +115,14 @@ fn step_bookkeeping<I: Inp>(i: &mut I, which: u8) {
     vassert!(i, g[0] == lo, "C15:first-marker-is-running-minimum");
     vassert!(i, g[4] == hi, "C15:last-marker-is-running-maximum");
     vassert!(i, beq(q.p(), p), "C15:p-reads-back-exactly");
-    // reachability witnesses: each variant restricts the observation to one cell, so it can only witness its own branch
-    match which {
-        0 => vcover!(i, x < h[0], "new-minimum-branch"),
-        1 => vcover!(i, x > h[4], "new-maximum-branch"),
-        _ => vcover!(i, x > h[1] && x < h[3], "interior-cell-branch"),
-    }
     vcover!(i, k[2] != n[2] && k[2] != n[2] + 1, "middle-marker-adjusted-down");
+    // reachability witness of the variant's own branch (each variant restricts the observation to one cell); the caller covers it under
+    // its own label, so that no harness carries a cover statement it cannot satisfy
+    match which {
+        0 => x < h[0],
+        1 => x > h[4],
+        _ => x > h[1] && x < h[3],
+    }
 }
 
 /// one observation from a well-formed state whose heights and sample lie on a small integer lattice:
@@ -165,8 +166,8 @@ harnesses! {
         vunreachable!(i, "must-be-unreachable:C15:new-accepts-invalid-p");
         let _ = q;
     }
-    fn step_newmin [8] (i) { step_bookkeeping(i, 0); }
-    fn step_top [8] (i) { step_bookkeeping(i, 1); }
-    fn step_interior [8] (i) { step_bookkeeping(i, 2); }
+    fn step_newmin [8] (i) { let w = step_bookkeeping(i, 0); vcover!(i, w, "new-minimum-branch"); }
+    fn step_top [8] (i) { let w = step_bookkeeping(i, 1); vcover!(i, w, "new-maximum-branch"); }
+    fn step_interior [8] (i) { let w = step_bookkeeping(i, 2); vcover!(i, w, "interior-cell-branch"); }
     fn step_lat [8] (i) { step_lattice(i); }
 }
